@@ -121,7 +121,13 @@ class NumpyModel:
             if attr == "flat":
                 return list(base.flat)
             return ("method", base, attr)
-        if isinstance(base, (MaskedArray, SymArr)):
+        if isinstance(base, (MaskedArray, SymArr, MaskLoad, Mask)):
+            if isinstance(base, Mask) and attr == "size":
+                return len(base)
+            if isinstance(base, Mask) and attr == "shape":
+                return (len(base),)
+            if isinstance(base, MaskLoad) and attr in ("size", "shape"):
+                raise Unsupported(f"{attr} of rows selected by a data-dependent mask (depends on the data)", node)
             return ("method", base, attr)
         if isinstance(base, (list, dict, str, tuple, set)):
             return ("method", base, attr)
@@ -146,6 +152,21 @@ class NumpyModel:
     # ------------------------------------------------------------------ method calls
     def call_method(self, base, name, args, kwargs, node):
         I = self.I
+        if isinstance(base, Mask):
+            if name == "astype":
+                return mkarr([_select(c, alg.ONE, alg.ZERO) for c in base.conds])
+            if name in ("sum",):
+                return sum((_select(c, alg.ONE, alg.ZERO) for c in base.conds), alg.ZERO)
+            if name in ("any", "all"):
+                return self._anyall(list(base.conds), node, any if name == "any" else all)
+            raise Unsupported(f"method {name} of a boolean mask", node)
+        if isinstance(base, MaskLoad):
+            if name == "sum" and not args and not kwargs and isinstance(base.base, np.ndarray) and base.base.ndim == 1:
+                # sum over the selected rows == sum over all rows of select(mask_g, row_g, 0)
+                return sum((_select(c, base.base[g], alg.ZERO) for g, c in enumerate(base.mask.conds)), alg.ZERO)
+            if name in ("copy", "astype"):
+                return MaskLoad(base.base.copy(), base.mask)
+            raise Unsupported(f"method {name} of rows selected by a data-dependent mask", node)
         if isinstance(base, np.ndarray):
             return self.array_method(base, name, args, kwargs, node)
         if isinstance(base, SymArr):
@@ -911,6 +932,8 @@ class NumpyModel:
 
     # --- numpy reductions / linear algebra
     def np_sum(self, a, axis=None, **kw):
+        if isinstance(a, (MaskLoad, Mask)) and axis is None:
+            return self.call_method(a, "sum", (), {}, None)
         if isinstance(a, (list, tuple)):
             a = self.np_array(a)
         if not isinstance(a, np.ndarray):
